@@ -254,6 +254,9 @@ def corpora(tier):
     for n in range(1, 4 if tier == 'quick' else 5):
         for si, (sh, _) in enumerate(model.shapes_with_unary(n, 1)):
             out.append([decorated(sh, si, sid=si + 1)])
+    # size probes beyond the bound: sentences with 11-13 tokens (two-digit positions, ten children, depth 11)
+    for si, sh in enumerate(model.big_shapes()):
+        out.append([decorated(sh, si, sid=20 + si)])
     return out
 
 
